@@ -11,6 +11,13 @@ import common, graphs, sched, minifont
 
 
 def case_to_minifont(c):
+    if "reg" in c:
+        # two masters with their own component graphs; every glyph keeps a contour so the masters stay compatible
+        mf = minifont.template_wght(("a", "b", "c"))
+        for g in mf["glyphs"]:
+            for master, key in (("Regular", "reg"), ("Bold", "bold")):
+                g["layers"][master]["components"] = [{"base": b, "xform": [1, 0, 0, 1, 10, 0]} for b in c[key][g["name"]]]
+        return mf
     mf = minifont.template_static(("a", "b", "c"))
     mf["as_ufo"] = True
     for g in mf["glyphs"]:
@@ -112,18 +119,21 @@ def main(ctx):
         raise common.ToolError("OutcomeGen failed: %s" % r.error)
     cases = common.replay_lines(r.out)
     cases.sort(key=lambda c: json.dumps(c, sort_keys=True))
+    two = [c for c in cases if "reg" in c]
+    cases = [c for c in cases if "reg" not in c]
     cyc = [c for c in cases if c["cyclic"]]
     acyc = [c for c in cases if not c["cyclic"]]
-    n_cyc, n_acyc = (260, 140) if quick else (6000, len(acyc))
-    chosen = rng.sample(cyc, min(n_cyc, len(cyc))) + rng.sample(acyc, min(n_acyc, len(acyc)))
-    if not quick and len(chosen) == len(cases):
+    n_cyc, n_acyc, n_two = (200, 120, 260) if quick else (6000, len(acyc), len(two))
+    chosen = rng.sample(cyc, min(n_cyc, len(cyc))) + rng.sample(acyc, min(n_acyc, len(acyc))) + \
+        rng.sample(two, min(n_two, len(two)))
+    if not quick and len(chosen) == len(cases) + len(two):
         ev.exhaustive = True
     runs = []  # (label, src, cyclic, signature)
     for n, c in enumerate(chosen):
         d = ctx.path("gen", str(n), "x")[:-2]
         src = minifont.materialize(case_to_minifont(c), d)
         runs.append((dict(kind="component-digraph", case=c), src, bool(c["cyclic"]),
-                     "component-cycle" if c["cyclic"] else "digraph:%s" % json.dumps(c, sort_keys=True)))
+                     ("component-cycle:" if c["cyclic"] else "digraph:") + json.dumps(c, sort_keys=True)))
 
     # ------------------------------------------------------------ hand-made degenerate designspaces
     def variant(name, edit, sig=None):
